@@ -350,7 +350,24 @@ def stale_loops(prop, u):
         then = [sorted(u.renamed.get(n, n) for n in lp) for lp in then]     # the contract followed a renaming of locals
     if then is None or not u.case.loops or u.shape is None or then == u.shape:
         return None
-    return "loops assigned %s when the contract was proved, %s now" % (then, u.shape)
+    # stale only if a loop-carried name the loop specifications SPEAK ABOUT is no longer assigned by any loop (a loop
+    # that merely assigns an additional local is the same loop as far as the contract is concerned)
+    import re
+    vanished = {n for lp in then for n in lp} - {n for lp in u.shape for n in lp}
+    texts = []
+    for ls in u.case.loops.values():
+        for f in ("invariant", "decreases", "keep", "havoc", "body_end"):
+            v = getattr(ls, f, None)
+            texts += [v] if isinstance(v, str) else [x for x in (v or []) if isinstance(x, str)]
+        for f in ("ghost", "init_ghost", "body_ghost", "cursor"):
+            d = getattr(ls, f, None) or {}
+            texts += list(d.keys()) + [x for x in d.values() if isinstance(x, str)]
+    used = set(re.findall(r"[A-Za-z_]\w*", " ".join(texts)))
+    gone = sorted(vanished & used)
+    if not gone:
+        return None
+    return "the loop specifications name %s, which the loops of the function no longer assign (loops assigned %s when the " \
+           "contract was proved, %s now)" % (gone, then, u.shape)
 
 
 def in_ledger(prop, oid):
